@@ -4,6 +4,7 @@ package c17
 import (
 	"encoding/json"
 	"fmt"
+	"math"
 	"sort"
 	"strconv"
 	"strings"
@@ -36,6 +37,8 @@ type Case struct {
 	// Sen: the sen entry points get the document in SEN notation (bare tokens, single quoted
 	// strings, no commas) instead of JSON
 	Sen bool `json:"sen,omitempty"`
+	// Spell: how floats are spelled in the text (see spellFloat)
+	Spell int `json:"spell,omitempty"`
 }
 
 func TestMain(m *testing.M) {
@@ -98,8 +101,8 @@ func docLess(a, b []any, reverse bool) bool {
 
 // writeDoc writes the tree as JSON with the members of every object in ascending or descending
 // key order.
-func writeDoc(v any, indent int, reverse bool) string {
-	if !reverse && !hasBig(v) {
+func writeDoc(v any, indent int, reverse bool, spell int) string {
+	if !reverse && !hasBig(v) && spell == 0 {
 		return oj.JSON(v, &ojg.Options{Sort: true, Indent: indent})
 	}
 	var sb strings.Builder
@@ -157,12 +160,27 @@ func writeDoc(v any, indent int, reverse bool) string {
 			sb.WriteByte(']')
 		case json.Number:
 			sb.WriteString(string(tv)) // the writers would quote it
+		case float64:
+			sb.WriteString(spellFloat(tv, spell))
 		default:
 			sb.WriteString(oj.JSON(v))
 		}
 	}
 	w(v, 0)
 	return sb.String()
+}
+
+// spellFloat: a float the way a writer other than the library's might spell it: 1 = a whole
+// number keeps a fraction part ("3.0"), 2 = exponent form ("3E+00", "1.5E+00"); the value
+// read back is the same float64 either way.
+func spellFloat(f float64, spell int) string {
+	switch {
+	case spell == 1 && f == math.Trunc(f) && math.Abs(f) < 1e15:
+		return strconv.FormatFloat(f, 'f', 1+int(math.Abs(f))%2, 64)
+	case spell == 2 && !math.IsInf(f, 0) && !math.IsNaN(f):
+		return strconv.FormatFloat(f, 'E', -1, 64)
+	}
+	return oj.JSON(f)
 }
 
 // hasBig: does the tree hold a number kept as text (the library's writers would quote it).
@@ -191,7 +209,7 @@ func hasBig(v any) bool {
 // quote, a backslash nor a control character (a double quote inside needs no escape then) and
 // JSON quoted otherwise; members and elements separated by blanks; keys in ascending or
 // descending order like writeDoc.
-func writeSEN(v any, reverse bool) string {
+func writeSEN(v any, reverse bool, spell int) string {
 	var sb strings.Builder
 	str := func(s string) {
 		bare := len(s) > 0 && s != "true" && s != "false" && s != "null"
@@ -252,6 +270,8 @@ func writeSEN(v any, reverse bool) string {
 			str(tv)
 		case json.Number:
 			sb.WriteString(string(tv)) // the writers would quote it
+		case float64:
+			sb.WriteString(spellFloat(tv, spell))
 		default:
 			sb.WriteString(oj.JSON(v))
 		}
@@ -379,7 +399,7 @@ func handlerReading(doc any, targets []jpx.Path, reverse bool) (hits []hit, open
 				return
 			}
 			if plain {
-				hits = append(hits, hit{locText(path), canon.String(v, canon.Value)})
+				hits = append(hits, hit{locText(path), canon.String(v, canon.Typed)})
 				return
 			}
 			seen := map[string]bool{}
@@ -400,11 +420,11 @@ func handlerReading(doc any, targets []jpx.Path, reverse bool) (hits []hit, open
 			}
 			sort.Slice(locs, func(i, j int) bool { return handlerLess(locs[i].Path, locs[j].Path) })
 			for _, l := range locs {
-				hits = append(hits, hit{locText(append(append([]any(nil), path...), l.Path...)), canon.String(l.Val, canon.Value)})
+				hits = append(hits, hit{locText(append(append([]any(nil), path...), l.Path...)), canon.String(l.Val, canon.Typed)})
 			}
 		default:
 			if plain {
-				hits = append(hits, hit{locText(path), canon.String(v, canon.Value)})
+				hits = append(hits, hit{locText(path), canon.String(v, canon.Typed)})
 			}
 		}
 	}
@@ -442,14 +462,25 @@ func handlerLess(a, b []any) bool {
 
 func Run(cs Case, c *vrt.Ctx) {
 	doc := wx.Dec(cs.Doc)
-	text := writeDoc(doc, cs.Indent, cs.Reverse)
+	text := writeDoc(doc, cs.Indent, cs.Reverse, cs.Spell)
 	if cs.Reverse {
 		c.Class("keys-descending")
 	}
 	stext := text
 	if cs.Sen {
-		stext = writeSEN(doc, cs.Reverse)
+		stext = writeSEN(doc, cs.Reverse, cs.Spell)
 		c.Class("sen-notation")
+	}
+	// parse-then-locate: the tree the text denotes (a float written without a fraction part is
+	// read as an integer; C02 decides the parser)
+	if parsed, err := oj.ParseString(text); err != nil {
+		c.Failf("oracle-defect", "oracle", "the generated text %q does not parse: %v", text, err)
+		return
+	} else if canon.String(parsed, canon.Value) != canon.String(doc, canon.Value) {
+		c.Failf("oracle-defect", "oracle", "the generated text %q denotes %s, not %s", text, canon.String(parsed, canon.Value), canon.String(doc, canon.Value))
+		return
+	} else {
+		doc = parsed
 	}
 	var targets []jp.Expr
 	var all []jpx.Loc
@@ -540,7 +571,7 @@ func Run(cs Case, c *vrt.Ctx) {
 		if len(r.Locs) != 1 {
 			continue
 		}
-		want = append(want, hit{locText(p), canon.String(r.Locs[0].Val, canon.Value)})
+		want = append(want, hit{locText(p), canon.String(r.Locs[0].Val, canon.Typed)})
 	}
 	nested := false
 	for _, p := range keep {
@@ -584,7 +615,7 @@ func Run(cs Case, c *vrt.Ctx) {
 		var err error
 		pv, stack := vrt.Catch(func() {
 			err = e.f(func(p jp.Expr, v any) {
-				got = append(got, hit{p.String(), canon.String(v, canon.Value)})
+				got = append(got, hit{p.String(), canon.String(v, canon.Typed)})
 			})
 		})
 		if pv != nil {
@@ -744,7 +775,8 @@ func drawCase(t *rapid.T) Case {
 	cs.Doc = wx.Enc(doc)
 	cs.Reverse = rapid.IntRange(0, 3).Draw(t, "reverse") == 0
 	cs.Sen = rapid.IntRange(0, 1).Draw(t, "sen") == 0
-	text := writeDoc(doc, cs.Indent, cs.Reverse)
+	cs.Spell = rapid.SampledFrom([]int{0, 0, 1, 1, 2}).Draw(t, "spell")
+	text := writeDoc(doc, cs.Indent, cs.Reverse, cs.Spell)
 	var cuts []int
 	for i := 1; i < len(text); i++ {
 		if text[i-1] != ' ' && text[i] != ' ' {
